@@ -384,7 +384,10 @@ Model/SrcPreludeG.v; the text generated for every other unit is untouched):
   `self._parse_data(..)` as the assignment of what the translated callee answers (checked: the callee touches the object only
   through self.records.append(record) as its last statement, resp. through self.record[..] = ..), `for (a, b) in e` unpacked in
   the body, `a, b = <method answering a tuple of ints>` = py_pair_of_list (ValueError), a call of a SRCF_CLASSMETHODS classmethod
-  through self with keyword arguments.
+  through self with keyword arguments.  EUI.__repr__ declares "self._dialect" (the translated EUI.__str__ takes the receiver's dialect
+  first).  EUI.info: `self.oui.registration()` / `self.iab.registration()` really build the identifier object (FnG.registration_of:
+  None -> AttributeError, else the translated constructor __init__:int on the integer the translated getter answers, then the
+  translated registration()); `d = {'OUI': e}` / `d['IAB'] = e` is the pair (record, None-or-record) (type einfo).
 * netaddr/eui/ieee.py -> pysrc_ieeeg_gen.v (C19: load_index).  A parameter declared `eindex` is an index dict changed in place: the
   function answers the new dict (a `return` is appended; it must have none of its own); `index.setdefault(k, [])` /
   `index[k].append((a, b))` = py_eidx_setdefault / py_eidx_append; `try: BODY / finally: <file parameter>.close()` is BODY;
@@ -7697,7 +7700,7 @@ SRCG_UNITS = [
     # iab, org, address, offset, size as the tuple of their values in that order (what the translated _parse_data answers); the
     # pseudo-parameter "self.<attr>" makes that attribute of the receiver a leading parameter; "self.*" lists the attributes a
     # constructor-like method assigns (it answers the tuple of their final values)
-    ("netaddr/eui/__init__.py", "pysrc_euig_gen.v", "", " Base.PyStr Model.SrcPreludeStr Model.SrcPreludeSRCE Model.SrcPreludeViews Model.SrcPreludeG",
+    ("netaddr/eui/__init__.py", "pysrc_euig_gen.v", "", " Base.PyStr Model.SrcPreludeStr Model.Eui Model.SrcPreludeEui Model.SrcPreludeEui2 Model.SrcPreludeSRCE Model.SrcPreludeViews Model.SrcPreludeG",
      [(c, "%s:%s" % (m, c.lower()), {"other": c.lower()}) for c in ("OUI", "IAB") for m in ("__eq__", "__ne__")] +
      [("OUI", "reg_count", {"self.records": "list orec"}), ("OUI", "registration", {"index": "int", "self.records": "list orec"}),
       ("OUI", "__getstate__", {"self.records": "list orec"}), ("OUI", "__setstate__", {"state": "tup:int,list orec", "self.*": "_value,records"}),
@@ -7707,7 +7710,10 @@ SRCG_UNITS = [
       # the constructors on an int argument: the index dicts ieee.OUI_INDEX / ieee.IAB_INDEX and the registry files are Section
       # variables of the generated file (SRCG_EUI_PREAMBLE)
       ("OUI", "__init__:int", {"oui": "int", "self.*": "_value,records"}),
-      ("IAB", "__init__:int", {"iab": "int", "strict": "bool", "self.*": "_value,record"})]),
+      ("IAB", "__init__:int", {"iab": "int", "strict": "bool", "self.*": "_value,record"}),
+      # EUI.__repr__ (through the translated __str__, which reads the receiver's dialect) and EUI.info (`einfo` = the dict with the
+      # key 'OUI' and possibly 'IAB' as the pair (record, None-or-record))
+      ("EUI", "__repr__", {"self._dialect": "edialect"}), ("EUI", "info", {})]),
 ]
 SRCG_UNITS.append(
     # C19: netaddr/eui/ieee.py load_index.  `index` (an index dict, type eindex) is changed in place: the function answers the new
@@ -7759,7 +7765,7 @@ FILES = FILES + tuple(u[1] for u in SRCG_UNITS)
 SRCG_OUT = tuple(u[1] for u in SRCG_UNITS)
 SRCG_TYPES = {"ikey": "irow", "irec": "irow", "sdict": "sdict", "oui": "Z", "iab": "Z",
               "orec": "(Z * string * string * (list string) * Z * Z)", "eindex": "eindex", "zpair": "(Z * Z)", "darg6": "darg6", "cls6g": "(string * bool)",
-              "srec": "(list (string * string))", "ikv": "ikeyview"}
+              "srec": "(list (string * string))", "ikv": "ikeyview", "einfo": "(orec * option orec)"}
 SRCG_IDCLASS = {"oui": "OUI", "iab": "IAB"}
 COQTY.update(SRCG_TYPES)
 SRCG_RESERVED = set("irow ikeyview IKNet IKRange IKAddr py_ikey_view sdict py_sd_new py_sd_setdefault py_sd_append IANA_INFO "
@@ -7825,6 +7831,30 @@ class SrcgPrepare(ast.NodeTransformer):
             return st
         return self.generic_visit(st)
 
+    def info_dict(self, f):
+        """EUI.info: `d = {'OUI': e}` -> d = __g_info_new(e); `d['IAB'] = e` -> d = __g_info_iab(d, e) (a dict with the key 'OUI' and
+        possibly 'IAB': the pair (record, None-or-record)); any other use of such a d than DictDotLookup(d) is rejected in FnG.call"""
+        ds = {st.targets[0].id for st in ast.walk(f) if isinstance(st, ast.Assign) and len(st.targets) == 1 and isinstance(st.targets[0], ast.Name)
+              and isinstance(st.value, ast.Dict) and [kk.value if isinstance(kk, ast.Constant) else None for kk in st.value.keys] == ["OUI"]}
+        if not ds:
+            return
+        for blk in [n for n in ast.walk(f) if isinstance(getattr(n, "body", None), list)]:
+            for fld in ("body", "orelse"):
+                stmts = getattr(blk, fld, None)
+                if not isinstance(stmts, list):
+                    continue
+                for i, st in enumerate(stmts):
+                    if (isinstance(st, ast.Assign) and len(st.targets) == 1 and isinstance(st.targets[0], ast.Name) and st.targets[0].id in ds
+                            and isinstance(st.value, ast.Dict)):
+                        st.value = srcg_pseudo("__g_info_new", [st.value.values[0]], st.value)
+                    elif (isinstance(st, ast.Assign) and len(st.targets) == 1 and isinstance(st.targets[0], ast.Subscript)
+                          and isinstance(st.targets[0].value, ast.Name) and st.targets[0].value.id in ds
+                          and isinstance(st.targets[0].slice, ast.Constant) and st.targets[0].slice.value == "IAB"):
+                        d = st.targets[0].value
+                        stmts[i] = ast.copy_location(ast.Assign(
+                            targets=[ast.copy_location(ast.Name(id=d.id, ctx=ast.Store()), d)],
+                            value=srcg_pseudo("__g_info_iab", [ast.copy_location(ast.Name(id=d.id, ctx=ast.Load()), d), st.value], st)), st)
+
     def visit_Expr(self, st):
         v = st.value
         if (isinstance(v, ast.Call) and isinstance(v.func, ast.Attribute) and not v.keywords and isinstance(v.func.value, ast.Name)
@@ -7887,6 +7917,7 @@ class SrcgPrepare(ast.NodeTransformer):
 
     def visit_FunctionDef(self, f):
         self.dict_items(f)
+        self.info_dict(f)
         a = f.args
         if a.vararg is not None and not (a.args or a.kwarg or a.kwonlyargs or a.posonlyargs or a.defaults) and is_list(
                 parse_type(getattr(self.fn, "g_types", {}).get(a.vararg.arg, ""))):
@@ -8313,7 +8344,13 @@ class FnG(FnE):
                 and re.fullmatch(r"[ -$&-~]*%s[ -$&-~]*", node.left.value) and '"' not in node.left.value
                 and self.tr.out == "pysrc_euig_gen.v"):
             a, b = node.left.value.split("%s")               # '<text>%s<text>' % self: str(self) = the translated __str__
-            r = self.generated(node, self.recv, "__str__", self.state(env), [])
+            dstr = self.tr.get(self.recv, "__str__", node)
+            dargs = []
+            if getattr(dstr, "dialect_param", False):        # (EUI.__str__ reads the receiver's dialect: its first parameter)
+                if "self._dialect" not in self.attrs:
+                    bad(node, "str(self) needs the receiver's dialect, which this entry does not declare")
+                dargs = [self.attrs["self._dialect"]]
+            r = Fn.generated(self, node, self.recv, "__str__", self.state(env), dargs)
             if (r[1] if r[0] == "out" else r[0]) != "str":
                 bad(node, "__str__ of %s is not translated as text" % self.recv)
             if r[0] == "out":
@@ -8334,6 +8371,45 @@ class FnG(FnE):
             e = self.int_(node.right, env)                   # '<text>%o' % e for an int e: the text followed by e in octal
             return ("str", "(py_fmt_oct \"%s\"%%string %s)" % (node.left.value[:-2], e))
         return super().rhs(node, env)
+
+    def registration_of(self, node, prop, env):
+        """self.oui.registration() / self.iab.registration() on an EUI receiver.  The translated property getter (units pysrc_eui_gen.v /
+        pysrc_euib_gen.v) answers None or the INTEGER the identifier object is made from (CTOR_AS_ARG); here the object is really
+        built: the translated constructor <C>.__init__:int on that integer (C = the class every `return` of the getter calls, default
+        arguments), then the translated registration() on the finished object; None.registration() is AttributeError."""
+        r = self.mod.lookup("EUI", prop)
+        rets = [n.value for n in ast.walk(r[1]) if isinstance(n, ast.Return) and n.value is not None] if r and r[2] else []
+        cs = {dotted(v.func) if isinstance(v, ast.Call) and len(v.args) == 1 and not v.keywords else None for v in rets}
+        cls = cs.pop() if len(cs) == 1 else None
+        if cls not in CTOR_AS_ARG or cls not in self.mod.classes:
+            bad(node, "EUI.%s does not answer OUI(<int>) / IAB(<int>) objects only" % prop)
+        g = self.tr.get("EUI", prop, node)
+        if g.outcome or g.kind != "int" or not g.optional or g.params:
+            bad(node, "unexpected translation of EUI.%s" % prop)
+        if FILES.index(g.file) > FILES.index(self.file):
+            bad(node, "%s lives in a later file" % g.cname)
+        self.depfns.append(g)
+        ctor, reg = self.tr.get(cls, "__init__:int", node), self.tr.get(cls, "registration", node)
+        self.depfns += [ctor, reg]
+        names = [a.arg for a in ctor.f.args.args][2:]                # parameters after (self, <the int>): their literal defaults
+        dfl = ctor.f.args.defaults[len(ctor.f.args.defaults) - len(names):] if names else []
+        extra = []
+        for x, v in zip(names, dfl):
+            if not (isinstance(v, ast.Constant) and isinstance(v.value, bool)):
+                bad(node, "default of parameter %s of %s.__init__" % (x, cls))
+            extra.append("true" if v.value else "false")
+        if len(extra) != len(names) or len(ctor.params) != 1 + len(names):
+            bad(node, "parameters of %s.__init__" % cls)
+        rnames = [a.arg for a in reg.f.args.args][1:]
+        rdfl = [const_int(v) for v in reg.f.args.defaults]
+        if len(rdfl) != len(rnames) or None in rdfl:
+            bad(node, "parameters of %s.registration" % cls)
+        call = "(%s 0 %s)" % (ctor.cname, " ".join(["h0"] + extra))      # (the receiver value a constructor is handed is not read)
+        regc = "(%s)" % " ".join([reg.cname, "(fst st)", "(snd st)"] + ["%d" % k for k in rdfl])
+        if not reg.outcome:
+            regc = "Ok %s" % regc
+        term = "(match (%s %s) with None => Raise AttributeError | Some h0 => do st <- %s; %s end)" % (g.cname, self.state(env), call, regc)
+        return ("out", "orec", term)
 
     def str_of_expr(self, node, env):
         """str(e) as '%s' prints it: text itself; an int in decimal; `self` / an IPAddress object through the translated __str__;
@@ -8798,10 +8874,23 @@ class FnG(FnE):
         if (isinstance(f, ast.Attribute) and dotted(f.value) == "self._module" and self.tr.out == "pysrc_ipg_gen.v" and self.recv == "IPAddress"
                 and "self" not in env and node.keywords):
             return self.module_dispatch(node, env)
+        if name == "__g_info_new":
+            ty, t = self.ex(node.args[0], env)
+            if ty != "orec":
+                bad(node, "{'OUI': e} for e of kind %s" % show(ty))
+            return ("einfo", "(%s, None)" % t)
+        if name == "__g_info_iab":
+            (td, d), (ty, t) = self.ex(node.args[0], env), self.ex(node.args[1], env)
+            if td != "einfo" or ty != "orec":
+                bad(node, "d['IAB'] = e on %s with e of kind %s" % (show(td), show(ty)))
+            return ("einfo", "(fst %s, Some %s)" % (d, t))
+        if (isinstance(f, ast.Attribute) and f.attr == "registration" and not node.args and not node.keywords and self.recv == "EUI"
+                and isinstance(f.value, ast.Attribute) and dotted(f.value) in ("self.oui", "self.iab") and "self" not in env):
+            return self.registration_of(node, f.value.attr, env)
         if (name == "DictDotLookup" and name not in env and self.mod.imports.get(name) == "netaddr.core.DictDotLookup" and len(node.args) == 1
                 and not node.keywords):
             ty, t = self.ex(node.args[0], env)               # DictDotLookup(d): the attribute view of the dict d, represented by d itself
-            if ty != "orec":
+            if ty not in ("orec", "einfo"):
                 bad(node, "DictDotLookup of %s" % show(ty))
             return (ty, t)
         if (isinstance(f, ast.Attribute) and isinstance(f.value, ast.Name) and f.value.id != "self" and not node.keywords
